@@ -1,6 +1,8 @@
 (** C03 — value-level lemmas per opcode row (handler result = manual row on
     the architectural operand values) and the format-level theorems. *)
 From Coq Require Import ZArith List Bool Lia ZifyBool.
+From RecordUpdate Require Import RecordSet.
+Import RecordSetNotations.
 Import ListNotations.
 From VIsa Require Import IsaState ExecImpl ExecSpec ExecProofs.
 Open Scope Z_scope.
@@ -249,4 +251,336 @@ Proof.
   { assert (0 < 2 ^ w) by (apply Z.pow_pos_nonneg; lia).
     pose proof (Z.mod_pos_bound q (2 ^ w) H). pose proof (Z.mod_le q (2 ^ w) ltac:(lia) H). lia. }
   split; [reflexivity|]. rewrite (Z.mod_small _ W32) by exact Hr. reflexivity.
+Qed.
+
+(** *** S_BFE_I32 (both ALUs run the same repaired computation) *)
+Definition sext (P Wd f : Z) : Z := if P <=? f then f - Wd else f.
+
+Lemma bfe_caseB : forall x A Wd N M P f lo hi,
+  0 < A -> 0 < N -> 0 < P -> Wd = 2 * P -> M = A * N -> Wd * M = W32 ->
+  x = (hi * Wd + f) * A + lo -> 0 <= f < Wd -> 0 <= lo < A ->
+  s32 (x * N) / M = sext P Wd f.
+Proof.
+  intros x A Wd N M P f lo hi HA HN HP HW HM H32 Hx Hf Hlo.
+  assert (HMp : 0 < M) by nia.
+  set (r := f * M + lo * N).
+  assert (Hxn : x * N = r + hi * W32).
+  { subst r. rewrite <- H32. subst x M. ring. }
+  assert (Hlon : 0 <= lo * N < M) by (subst M; nia).
+  assert (Hr : 0 <= r < W32).
+  { subst r. rewrite <- H32. split; [nia|].
+    assert (f * M <= (Wd - 1) * M) by nia. nia. }
+  unfold s32, sx. rewrite Hxn, Z.mod_add by (unfold W32; lia).
+  rewrite (Z.mod_small r W32 Hr). unfold sext.
+  assert (Hhalf : W32 / 2 = P * M).
+  { rewrite <- H32, HW. replace (2 * P * M) with (P * M * 2) by ring. apply Z.div_mul; lia. }
+  rewrite Hhalf.
+  destruct (P <=? f) eqn:E.
+  - assert (P * M <= r) by (subst r; nia).
+    replace (r <? P * M) with false by (symmetry; apply Z.ltb_ge; lia).
+    symmetry. apply (Z.div_unique_pos _ _ _ (lo * N)); [exact Hlon|].
+    subst r. rewrite <- H32. ring.
+  - assert (r < P * M).
+    { subst r. assert (f <= P - 1) by lia. assert (f * M <= (P - 1) * M) by nia. nia. }
+    replace (r <? P * M) with true by (symmetry; apply Z.ltb_lt; lia).
+    symmetry. apply (Z.div_unique_pos _ _ _ (lo * N)); [exact Hlon|]. subst r. ring.
+Qed.
+
+Lemma sext_id : forall P q, 0 < P -> - P <= q < P -> sext P (2 * P) (q mod (2 * P)) = q.
+Proof.
+  intros P q HP Hq. unfold sext.
+  destruct (Z_lt_le_dec q 0).
+  - assert (E : q mod (2 * P) = q + 2 * P).
+    { symmetry. apply (Z.mod_unique_pos _ _ (-1)); lia. }
+    rewrite E. replace (P <=? q + 2 * P) with true by (symmetry; apply Z.leb_le; lia). lia.
+  - rewrite Z.mod_small by lia. replace (P <=? q) with false by (symmetry; apply Z.leb_gt; lia). reflexivity.
+Qed.
+
+Lemma bfe_i32_value : forall a b,
+  let x := s32 a in let off := u32 b mod 32 in let w := (u32 b / 65536) mod 128 in
+  bfe_i32_impl a b = if w =? 0 then 0 else sext (2 ^ (w - 1)) (2 ^ w) ((x / 2 ^ off) mod 2 ^ w).
+Proof.
+  intros a b x off w. unfold bfe_i32_impl.
+  rewrite land31, land127, (Z.shiftr_div_pow2 _ 16) by lia. change (2 ^ 16) with 65536.
+  fold off. fold w. fold x.
+  assert (Hoff : 0 <= off < 32) by (subst off; lia). assert (Hw : 0 <= w < 128) by (subst w; lia).
+  destruct (w =? 0) eqn:E0; [reflexivity|]. assert (Hw1 : 1 <= w) by lia.
+  pose proof (s32_range a) as Hx. fold x in Hx.
+  assert (HA : 0 < 2 ^ off) by (apply Z.pow_pos_nonneg; lia).
+  assert (HP : 0 < 2 ^ (w - 1)) by (apply Z.pow_pos_nonneg; lia).
+  assert (HWd : 2 ^ w = 2 * 2 ^ (w - 1)).
+  { replace w with (Z.succ (w - 1)) at 1 by lia. apply Z.pow_succ_r; lia. }
+  destruct (off + w >=? 32) eqn:Eow.
+  - rewrite Z.shiftr_div_pow2 by lia. rewrite HWd. symmetry. apply sext_id; auto.
+    assert (H31 : 2147483648 = 2 ^ off * 2 ^ (31 - off)).
+    { rewrite <- Z.pow_add_r by lia. replace (off + (31 - off)) with 31 by lia. reflexivity. }
+    assert (Hle : 2 ^ (31 - off) <= 2 ^ (w - 1)) by (apply Z.pow_le_mono_r; lia).
+    assert (Hq : - 2 ^ (31 - off) <= x / 2 ^ off < 2 ^ (31 - off)).
+    { split; [apply Z.div_le_lower_bound; auto; nia|apply Z.div_lt_upper_bound; auto; nia]. }
+    lia.
+  - rewrite Z.shiftl_mul_pow2, Z.shiftr_div_pow2 by lia.
+    apply (bfe_caseB x (2 ^ off) (2 ^ w) (2 ^ (32 - off - w)) (2 ^ (32 - w)) (2 ^ (w - 1))
+                     ((x / 2 ^ off) mod 2 ^ w) (x mod 2 ^ off) ((x / 2 ^ off) / 2 ^ w)); auto.
+    + apply Z.pow_pos_nonneg; lia.
+    + rewrite <- Z.pow_add_r by lia. f_equal. lia.
+    + rewrite <- Z.pow_add_r by lia. replace (w + (32 - w)) with 32 by lia. reflexivity.
+    + rewrite (Z.mul_comm (x / 2 ^ off / 2 ^ w)), <- Z.div_mod by lia.
+      rewrite (Z.mul_comm _ (2 ^ off)). apply Z.div_mod; lia.
+    + apply Z.mod_pos_bound. apply Z.pow_pos_nonneg; lia.
+    + apply Z.mod_pos_bound; auto.
+Qed.
+
+Lemma bfe_i32_range : forall a b, - 2147483648 <= bfe_i32_impl a b < 2147483648.
+Proof.
+  intros a b. unfold bfe_i32_impl. change (-2147483648) with (- (2147483648)).
+  repeat case_if; try lia.
+  - rewrite Z.shiftr_div_pow2 by (rewrite land31; lia).
+    apply div_pow2_range; [rewrite land31; lia|lia|apply s32_range].
+  - rewrite land31, land127 in *. rewrite Z.shiftr_div_pow2 by lia.
+    apply div_pow2_range; [lia|lia|apply s32_range].
+Qed.
+
+Lemma bfe_row : forall (st : state) x y, sccbit st -> 0 <= x < W64 -> 0 <= y < W64 ->
+  exists f, f_dst (bfe32 true) = Some f /\
+  u32 (u32 (bfe_i32_impl x y)) = f (u32 x) (u32 y) (scc st) /\
+  nz (bfe_i32_impl x y) = f_scc (bfe32 true) (u32 x) (u32 y) (scc st) (f (u32 x) (u32 y) (scc st)).
+Proof.
+  intros st x y Hs Hx Hy. eexists. split; [reflexivity|].
+  cbv [f_scc bfe32 scc_nonzero bfe_off bfe_width andb]. fold (signed B32 (u32 x)). rewrite <- s32_signed.
+  pose proof (bfe_i32_range x y) as Hr. rewrite u32_u32.
+  rewrite (bfe_i32_value x y) in *. cbv zeta in *.
+  set (w := u32 y / 65536 mod 128) in *. set (q := s32 x / 2 ^ (u32 y mod 32)) in *.
+  destruct (w =? 0) eqn:E0; [split; reflexivity|].
+  unfold sext in *. destruct (2 ^ (w - 1) <=? q mod 2 ^ w) eqn:E1.
+  - unfold u32 at 1. unfold nz. rewrite (nz_mod32 _ Hr). split; reflexivity.
+  - unfold u32 at 1. unfold nz. rewrite (nz_mod32 _ Hr). split; reflexivity.
+Qed.
+Lemma g_sop2_38 : val_ok32 GCN3 38 true.
+Proof.
+  vok32. do 2 eexists; (split; [reflexivity|]).
+  destruct (bfe_row st x y Hscc Hx Hy) as (f & Hf & Hv & Hc). cbn [f_dst] in Hf. inversion Hf; subst f.
+  split; [exact Hv|exact Hc].
+Qed.
+Lemma c_sop2_38 : val_ok32 CDNA3 38 true.
+Proof.
+  vok32. do 2 eexists; (split; [reflexivity|]).
+  destruct (bfe_row st x y Hscc Hx Hy) as (f & Hf & Hv & Hc). cbn [f_dst] in Hf. inversion Hf; subst f.
+  split; [exact Hv|exact Hc].
+Qed.
+
+(** *** SOP1 *)
+Definition h1 (a : arch) := match a with GCN3 => g_sop1 | CDNA3 => c_sop1 end.
+
+Definition val_ok1 (a : arch) (op : Z) : Prop :=
+  sop1_cnt op = 0 /\ (op =? 28) = false /\ saveexec_fn op = None /\
+  exists r f, sop1_row op = Some r /\ w_src r = B32 /\ w_dst r = B32 /\ f_dst r = Some f /\
+  forall st x, sccbit st -> 0 <= x < W64 ->
+    exists v c, h1 a op x st = Some (mkS (Some v) c None (pc st)) /\
+      u32 v = f (u32 x) 0 (scc st) /\
+      c = f_scc r (u32 x) 0 (scc st) (f (u32 x) 0 (scc st)).
+
+Lemma glue_sop1_32 : forall a st i, val_ok1 a (i_op i) -> wf st ->
+  i_fmt i = F_SOP1 -> 0 <= i_lit i < W32 -> adm32 true (i_src0 i) -> admd32 (i_dst i) -> agree a st i.
+Proof.
+  intros a st i (Hc & H28 & Hsx & r & f & Hr & Hws & Hwd & Hf & Hv) Hwf Hfmt Hl H0 Hd.
+  destruct (rd32_ok st true _ _ Hwf Hl H0) as (x & Hx1 & Hx2 & Hx3 & _).
+  assert (Hscc : sccbit st) by (destruct Hwf as (_&_&_&_&H&_); exact H).
+  destruct (Hv st x Hscc Hx3) as (v & c & Hh & Hval & Hcc).
+  destruct (wr32_ok st (i_dst i) v Hwf Hd) as (s1 & s2 & Hw1 & Hw2 & Heq).
+  unfold agree, exec_scalar, exec_spec. rewrite Hfmt, Hc, H28, Hx1. cbn [bind].
+  fold (h1 a). rewrite Hh. cbn [bind]. unfold commit. cbn [r_dst r_exec r_scc r_pc].
+  rewrite Hw1, Hsx, Hr. cbn [obind]. rewrite Hws. cbn [src]. rewrite Hx2. cbn [obind].
+  unfold run_row. rewrite Hf, Hwd. cbn [dst]. rewrite <- Hval, Hw2.
+  do 2 eexists. split; [reflexivity|split; [reflexivity|]].
+  rewrite Hcc, Hval. apply state_eq_set_scc_pc; auto.
+  apply dst32_frame in Hw2. tauto.
+Qed.
+
+Ltac vok1 := split; [reflexivity|]; split; [reflexivity|]; split; [reflexivity|];
+  do 2 eexists; split; [reflexivity|]; split; [reflexivity|]; split; [reflexivity|]; split; [reflexivity|];
+  intros st x Hscc Hx; unfold h1, c_sop1, g_sop1, dres; cbv beta iota; do 2 eexists; (split; [reflexivity|]);
+  cbv [f_scc bin bin_nz scc_nonzero scc_same wrap nz lnot ones signed].
+
+Lemma mov_row : forall x, u32 x = u32 x mod W32. Proof. intros; unfold u32, W32; lia. Qed.
+Lemma g_sop1_0 : val_ok1 GCN3 0. Proof. vok1. split; [apply mov_row|reflexivity]. Qed.
+Lemma c_sop1_0 : val_ok1 CDNA3 0. Proof. vok1. split; [apply mov_row|reflexivity]. Qed.
+Lemma not_row : forall x, u32 (not32 (u32 x)) = (W32 - 1 - u32 x) mod W32 /\
+  (if not32 (u32 x) =? 0 then 0 else 1) = (if (W32 - 1 - u32 x) mod W32 =? 0 then 0 else 1).
+Proof.
+  intros x. pose proof (u32_range x) as H. unfold not32.
+  rewrite (u32_small (W32 - 1 - u32 x)) by (unfold W32 in *; lia).
+  rewrite (Z.mod_small (W32 - 1 - u32 x)) by (unfold W32 in *; lia). split; reflexivity.
+Qed.
+Lemma g_sop1_4 : val_ok1 GCN3 4. Proof. vok1. apply not_row. Qed.
+Lemma c_sop1_4 : val_ok1 CDNA3 4. Proof. vok1. apply not_row. Qed.
+Lemma abs_row : forall X, - 2147483648 <= X < 2147483648 ->
+  u32 (if X <? 0 then s32 (- X) else X) = Z.abs X mod W32 /\
+  ((if X <? 0 then s32 (- X) else X) =? 0) = (Z.abs X mod W32 =? 0).
+Proof.
+  intros X H. unfold u32, s32, sx, W32. cbn [Z.div]. split; repeat case_if; try lia.
+Qed.
+Lemma g_sop1_48 : val_ok1 GCN3 48.
+Proof.
+  vok1. fold (signed B32 (u32 x)). rewrite <- s32_signed. pose proof (s32_range x) as Hr.
+  destruct (abs_row _ Hr) as [E1 E2]. rewrite u32_u32, E1, E2. split; reflexivity.
+Qed.
+
+Lemma state_eq_upd3 : forall s1 s2 e c p, state_eq s1 s2 -> pc s2 = p ->
+  state_eq (s1 <| exec := e |> <| scc := c |> <| pc := p |>) (s2 <| exec := e |> <| scc := c |>).
+Proof. intros s1 s2 e c p (H1&H2&H3&H4&H5&H6&H7&H8&H9) Hp. repeat split; cbn; intros; auto. Qed.
+Lemma state_eq_keep : forall s1 s2 st, state_eq s1 s2 -> pc s2 = pc st -> scc s2 = scc st ->
+  state_eq (s1 <| scc := scc st |> <| pc := pc st |>) s2.
+Proof. intros s1 s2 st (H1&H2&H3&H4&H5&H6&H7&H8&H9) Hp Hc. repeat split; cbn; intros; auto. Qed.
+
+Lemma sop1_mov64_agree : forall a st i, wf st -> i_fmt i = F_SOP1 -> i_op i = 1 ->
+  0 <= i_lit i < W32 -> adm64 (i_src0 i) -> admd64 (i_dst i) -> agree a st i.
+Proof.
+  intros a st i Hwf Hfmt Hop Hl H0 Hd.
+  destruct (rd64_ok st _ _ Hwf Hl H0) as (x & Hx1 & Hx2 & Hx3).
+  destruct (wr64_ok st (i_dst i) x Hwf Hd) as (s1 & s2 & Hw1 & Hw2 & Heq).
+  unfold agree, exec_scalar, exec_spec. rewrite Hfmt, Hop. cbn [sop1_cnt Z.eqb Pos.eqb]. rewrite Hx1. cbn [bind].
+  assert (Hh : match a with GCN3 => g_sop1 | CDNA3 => c_sop1 end 1 x st = Some (dres st x (scc st)))
+    by (destruct a; reflexivity).
+  rewrite Hh. cbn [bind saveexec_fn sop1_row obind bin w_src src]. rewrite Hx2. cbn [obind].
+  unfold commit, dres, run_row. cbn [r_dst r_exec r_scc r_pc f_dst w_dst dst wrap f_scc scc_same].
+  rewrite Hw1. cbv [bin f_dst w_dst dst wrap f_scc scc_same]. fold (u64 x). rewrite Hw2.
+  do 2 eexists. split; [reflexivity|split; [reflexivity|]].
+  apply dst64_frame in Hw2. destruct Hw2 as [Hp Hc].
+  destruct Heq as (E1&E2&E3&E4&E5&E6&E7&E8&E9). repeat split; cbn; intros; auto.
+Qed.
+
+Lemma sop1_getpc_agree : forall a st i, wf st -> i_fmt i = F_SOP1 -> i_op i = 28 ->
+  admd64 (i_dst i) -> agree a st i.
+Proof.
+  intros a st i Hwf Hfmt Hop Hd.
+  destruct (wr64_ok st (i_dst i) (pc st) Hwf Hd) as (s1 & s2 & Hw1 & Hw2 & Heq).
+  assert (Hpc : u64 (pc st) = pc st).
+  { destruct Hwf as (_&_&_&_&_&_&Hp). unfold u64. apply Z.mod_small; exact Hp. }
+  rewrite Hpc in Hw2.
+  unfold agree, exec_scalar, exec_spec. rewrite Hfmt, Hop. cbn [sop1_cnt Z.eqb Pos.eqb].
+  assert (Hh : match a with GCN3 => g_sop1 | CDNA3 => c_sop1 end 28 0 st = Some (dres st (pc st) (scc st)))
+    by (destruct a; reflexivity).
+  rewrite Hh. cbn [bind]. unfold commit, dres. cbn [r_dst r_exec r_scc r_pc]. rewrite Hw1, Hw2.
+  do 2 eexists. split; [reflexivity|split; [reflexivity|]].
+  apply dst64_frame in Hw2. destruct Hw2 as [Hp Hc]. apply state_eq_keep; auto.
+Qed.
+
+Definition saveexec_ops : list Z := [32; 33; 34; 35; 36; 37; 38; 39].
+Lemma sop1_saveexec_agree : forall a st i, wf st -> i_fmt i = F_SOP1 -> In (i_op i) saveexec_ops ->
+  0 <= i_lit i < W32 -> adm64 (i_src0 i) -> admd64 (i_dst i) -> agree a st i.
+Proof.
+  intros a st i Hwf Hfmt Hop Hl H0 Hd.
+  destruct (rd64_ok st _ _ Hwf Hl H0) as (x & Hx1 & Hx2 & Hx3).
+  destruct (wr64_ok st (i_dst i) (exec st) Hwf Hd) as (s1 & s2 & Hw1 & Hw2 & Heq).
+  assert (He : u64 (exec st) = exec st).
+  { destruct Hwf as (_&_&He&_). unfold u64. apply Z.mod_small; exact He. }
+  rewrite He in Hw2. pose proof (dst64_frame _ _ _ _ Hw2) as [Hp Hc].
+  unfold agree, exec_scalar, exec_spec. rewrite Hfmt.
+  unfold saveexec_ops in Hop. cbn [In] in Hop.
+  repeat (destruct Hop as [Hop|Hop]; [rewrite <- Hop|]); try contradiction;
+    cbn [sop1_cnt Z.eqb Pos.eqb]; rewrite Hx1; cbn [bind];
+    (assert (Hh : forall op, In op saveexec_ops ->
+        match a with GCN3 => g_sop1 | CDNA3 => c_sop1 end op x st =
+        Some (mkS (Some (exec st)) (nz (saveexec op x (exec st))) (Some (saveexec op x (exec st))) (pc st)))
+      by (intros op Ho; unfold saveexec_ops in Ho; cbn [In] in Ho;
+          repeat (destruct Ho as [Ho|Ho]; [rewrite <- Ho; destruct a; reflexivity|]); contradiction));
+    rewrite Hh by (unfold saveexec_ops; cbn [In]; tauto); cbn [bind saveexec_fn]; rewrite Hx2; cbn [obind];
+    unfold commit; cbn [r_dst r_exec r_scc r_pc]; rewrite Hw1, Hw2; cbn [obind];
+    do 2 eexists; (split; [reflexivity|split; [reflexivity|]]);
+    unfold saveexec, nz, lnot, not64, ones; apply state_eq_upd3; auto.
+Qed.
+
+(** *** SOPK *)
+Definition sopk_ops : list Z := [0; 1; 2; 3; 15].
+Lemma s16_sext : forall k, 0 <= k < 65536 -> s16 k = simm_sext k.
+Proof. intros k H. unfold s16, sx, simm_sext, W16. cbn [Z.div]. rewrite Z.mod_small by lia. reflexivity. Qed.
+Lemma admd32_adm32 : forall d, admd32 d -> adm32 false d.
+Proof. unfold admd32, adm32; intros; lia. Qed.
+
+Lemma sopk_agree : forall a st i, wf st -> i_fmt i = F_SOPK -> In (i_op i) sopk_ops ->
+  admd32 (i_dst i) -> agree a st i.
+Proof.
+  intros a st i Hwf Hfmt Hop Hd.
+  destruct (rd32_ok st false _ 0 Hwf ltac:(unfold W32; lia) (admd32_adm32 _ Hd)) as (x & Hx1 & Hx2 & Hx3 & Hx4).
+  specialize (Hx4 eq_refl). rewrite (u32_small x) in Hx2 by lia.
+  assert (Hk : 0 <= i_simm i mod 65536 < 65536) by lia.
+  pose proof (s16_sext _ Hk) as Hs. set (k := i_simm i mod 65536) in *.
+  assert (Hkr : - 32768 <= simm_sext k <= 32767) by (unfold simm_sext; case_if; lia).
+  assert (Hscc : sccbit st) by (destruct Hwf as (_&_&_&_&H&_); exact H).
+  assert (Hv1 : u32 (u64 (s16 k)) = simm_sext k mod W32) by (rewrite u32_u64, Hs; reflexivity).
+  assert (Hv2 : u32 (u32 (s16 k)) = simm_sext k mod W32) by (rewrite u32_u32, Hs; reflexivity).
+  assert (Hm1 : u32 (u64 (s32 (s16 k * s32 x))) = (signed B32 x * simm_sext k) mod W32).
+  { rewrite u32_u64, u32_s32, Hs, s32_signed, (u32_small x) by lia. unfold u32. f_equal. lia. }
+  assert (Hm2 : u32 (u32 (s32 (s32 x * s16 k))) = (signed B32 x * simm_sext k) mod W32).
+  { rewrite u32_u32, u32_s32, Hs, s32_signed, (u32_small x) by lia. reflexivity. }
+  assert (Hc : s32 x = signed B32 x) by (rewrite s32_signed, (u32_small x) by lia; reflexivity).
+  unfold agree, exec_scalar, exec_spec. rewrite Hfmt, land_ffff. fold k.
+  unfold sopk_ops in Hop. cbn [In] in Hop.
+  destruct a; repeat (destruct Hop as [Hop|Hop]; [rewrite <- Hop|]); try contradiction;
+    cbn [Z.eqb Pos.eqb orb]; rewrite ?Hx1; unfold g_sopk, c_sopk, dres, cres, keep; cbv beta iota;
+    repeat case_if; cbn [bind obind]; rewrite ?Hx2; cbn [obind]; unfold commit; cbn [r_dst r_exec r_scc r_pc].
+  all: try match goal with |- context [wr ?s ?d 0 ?v] =>
+         destruct (wr32_ok s d v Hwf Hd) as (s1 & s2 & Hw1 & Hw2 & Heq); rewrite Hw1;
+         rewrite ?Hv1, ?Hv2, ?Hm1, ?Hm2 in Hw2; rewrite Hw2;
+         pose proof (dst32_frame _ _ _ _ Hw2) as [Hp Hcc] end.
+  all: do 2 eexists; (split; [reflexivity|split; [reflexivity|]]).
+  all: try (apply state_eq_keep; auto).
+  all: try (apply state_eq_keep; [apply state_eq_refl|reflexivity|reflexivity]).
+  all: rewrite ?Hc, ?Hs; unfold b2z; repeat split; cbn; intros; auto; repeat case_if; try lia.
+Qed.
+
+
+(** ** format-level theorems *)
+Definition sop2_rows32 (a : arch) : list Z :=
+  match a with
+  | GCN3 => [0; 1; 2; 3; 4; 5; 6; 7; 8; 9; 10; 12; 16; 28; 30; 32; 34; 36; 38]
+  | CDNA3 => [0; 1; 2; 3; 4; 5; 6; 7; 8; 9; 10; 12; 14; 16; 18; 20; 28; 30; 32; 34; 36; 37; 38; 44]
+  end.
+Definition sop2_rows64 (a : arch) : list Z :=
+  match a with
+  | GCN3 => [13; 15; 17; 19; 29; 31]
+  | CDNA3 => [11; 13; 15; 17; 19; 21; 29; 31; 33]
+  end.
+Definition sop1_rows32 (a : arch) : list Z :=
+  match a with GCN3 => [0; 4; 48] | CDNA3 => [0; 4] end.
+
+Lemma sop2_32_agree : forall a st i, In (i_op i) (sop2_rows32 a) -> wf st ->
+  i_fmt i = F_SOP2 -> 0 <= i_lit i < W32 ->
+  adm32 true (i_src0 i) -> adm32 true (i_src1 i) -> admd32 (i_dst i) -> agree a st i.
+Proof.
+  intros a st i Hop Hwf Hfmt Hl H0 H1 Hd.
+  apply (glue_sop2_32 a st i true); auto.
+  destruct a; unfold sop2_rows32 in Hop; cbn [In] in Hop;
+    repeat (destruct Hop as [Hop|Hop]; [rewrite <- Hop|]); try contradiction.
+  exact g_sop2_0. exact g_sop2_1. exact g_sop2_2. exact g_sop2_3. exact g_sop2_4. exact g_sop2_5.
+  exact g_sop2_6. exact g_sop2_7. exact g_sop2_8. exact g_sop2_9. exact g_sop2_10. exact g_sop2_12.
+  exact g_sop2_16. exact g_sop2_28. exact g_sop2_30. exact g_sop2_32. exact g_sop2_34. exact g_sop2_36.
+  exact g_sop2_38.
+  exact c_sop2_0. exact c_sop2_1. exact c_sop2_2. exact c_sop2_3. exact c_sop2_4. exact c_sop2_5.
+  exact c_sop2_6. exact c_sop2_7. exact c_sop2_8. exact c_sop2_9. exact c_sop2_10. exact c_sop2_12.
+  exact c_sop2_14. exact c_sop2_16. exact c_sop2_18. exact c_sop2_20. exact c_sop2_28. exact c_sop2_30.
+  exact c_sop2_32. exact c_sop2_34. exact c_sop2_36. exact c_sop2_37. exact c_sop2_38. exact c_sop2_44.
+Qed.
+
+Lemma sop2_64_agree : forall a st i, In (i_op i) (sop2_rows64 a) -> wf st ->
+  i_fmt i = F_SOP2 -> 0 <= i_lit i < W32 ->
+  adm64 (i_src0 i) -> adm64 (i_src1 i) -> admd64 (i_dst i) -> agree a st i.
+Proof.
+  intros a st i Hop Hwf Hfmt Hl H0 H1 Hd.
+  apply (glue_sop2_64 a st i); auto.
+  destruct a; unfold sop2_rows64 in Hop; cbn [In] in Hop;
+    repeat (destruct Hop as [Hop|Hop]; [rewrite <- Hop|]); try contradiction.
+  exact g_sop2_13. exact g_sop2_15. exact g_sop2_17. exact g_sop2_19. exact g_sop2_29. exact g_sop2_31.
+  exact c_sop2_11. exact c_sop2_13. exact c_sop2_15. exact c_sop2_17. exact c_sop2_19. exact c_sop2_21.
+  exact c_sop2_29. exact c_sop2_31. exact c_sop2_33.
+Qed.
+
+Lemma sop1_32_agree : forall a st i, In (i_op i) (sop1_rows32 a) -> wf st ->
+  i_fmt i = F_SOP1 -> 0 <= i_lit i < W32 -> adm32 true (i_src0 i) -> admd32 (i_dst i) -> agree a st i.
+Proof.
+  intros a st i Hop Hwf Hfmt Hl H0 Hd.
+  apply (glue_sop1_32 a st i); auto.
+  destruct a; unfold sop1_rows32 in Hop; cbn [In] in Hop;
+    repeat (destruct Hop as [Hop|Hop]; [rewrite <- Hop|]); try contradiction.
+  exact g_sop1_0. exact g_sop1_4. exact g_sop1_48. exact c_sop1_0. exact c_sop1_4.
 Qed.
